@@ -71,6 +71,50 @@ def Beat.sameAt (size : Nat) (b e : Beat) : Prop :=
 instance (size : Nat) (b e : Beat) : Decidable (Beat.sameAt size b e) := by
   unfold Beat.sameAt; infer_instance
 
+/-- A beat with its address replaced by the index of its `2^size`-byte container
+    ("addresses taken at transfer-size granularity"). -/
+def Beat.atSize (size : Nat) (b : Beat) : Beat := { b with addr := b.addr / numBytes size }
+
+/-- The first `k` beats A3.4.1 asks for request `r` on a module with capabilities `caps`, at size granularity. -/
+def specPrefixC (caps : Caps) (r : Req) (k : Nat) : List Beat :=
+  (List.range k).map fun j => (specBeat r (effBurst caps r.burst) j).atSize r.size
+
+/-- All `len + 1` of them. -/
+def specBeatsC (caps : Caps) (r : Req) : List Beat := specPrefixC caps r (r.len + 1)
+
+/-! ### What happens on the two interfaces during a run of `sys` (module + protocol-legal master) -/
+
+/-- Beat handed over on `ax_beat` in this cycle (`valid & ready`), at the granularity of the request on the lines. -/
+def sysBeatNow (aw : Nat) (s : SysState) (i : SysIn) : List Beat :=
+  let o := sysOut aw s i
+  if o.beatValid && i.ready then [o.beat.atSize (s.drive i).req.size] else []
+
+/-- Request accepted on `ax_burst` in this cycle (`valid & ready`). -/
+def sysConsNow (aw : Nat) (s : SysState) (i : SysIn) : List Req :=
+  if (s.drive i).valid && (sysOut aw s i).burstReady then [(s.drive i).req] else []
+
+/-- Request the master starts to offer in this cycle. -/
+def sysOfferNow (s : SysState) (i : SysIn) : List Req :=
+  if s.held.isNone && i.go then [i.req] else []
+
+def sysBeats (caps : Caps) (aw : Nat) (s : SysState) : List SysIn → List Beat
+  | [] => []
+  | i :: is => sysBeatNow aw s i ++ sysBeats caps aw (sysNext caps aw s i) is
+
+def sysConsumed (caps : Caps) (aw : Nat) (s : SysState) : List SysIn → List Req
+  | [] => []
+  | i :: is => sysConsNow aw s i ++ sysConsumed caps aw (sysNext caps aw s i) is
+
+def sysOffered (caps : Caps) (aw : Nat) (s : SysState) : List SysIn → List Req
+  | [] => []
+  | i :: is => sysOfferNow s i ++ sysOffered caps aw (sysNext caps aw s i) is
+
+/-- Beats already delivered for the request the master is holding. -/
+def sysPending (caps : Caps) (s : SysState) : List Beat :=
+  match s.held with
+  | some r => specPrefixC caps r s.b.count
+  | none => []
+
 /-! ### Bytes touched by a burst (A3.4.2: transfer `k` uses the byte lanes from its address up to the end of its
     `2^size`-byte container) -/
 
